@@ -117,6 +117,7 @@ def Writer.writeVideo (w : Writer) (pts dts : Nat) (data : Bytes) (key : Bool) :
   | .ok (delta?, cfg?) =>
     let converted := convertPayload w.codec data
     if converted.length > u32Max then (w, .err .durationOverflow) else
+    if (pts : Int) - (dts : Int) > 2^31 - 1 ∨ (pts : Int) - (dts : Int) < -(2^31) then (w, .err .durationOverflow) else
     let w1 := match delta? with
       | some d => { w with vsRev := setLastDur w.vsRev d, vLastDelta := some d }
       | none => w
@@ -218,13 +219,14 @@ def bFtyp : Box := leaf "ftyp" (ascii "isom" ++ u32be 0x200 ++ ascii "isommp41")
 def matrixBytes : Bytes :=
   [0x00010000, 0, 0, 0, 0x00010000, 0, 0, 0, 0x40000000].flatMap u32be
 
-def bMvhd (durationMs : Nat) : Box :=
+def bMvhd (durationMs nextTrackId : Nat) : Box :=
   leaf "mvhd" (u32be 0 ++ u32be 0 ++ u32be 0 ++ u32be 1000 ++ u32be durationMs ++ u32be 0x00010000 ++
-    u16be 0x0100 ++ u16be 0 ++ u64be 0 ++ matrixBytes ++ zeros 24 ++ u32be 2)
+    u16be 0x0100 ++ u16be 0 ++ u64be 0 ++ matrixBytes ++ zeros 24 ++ u32be nextTrackId)
 
-/-- `build_tkhd_box_with_id` (note: 96-byte payload — two `u64` zeros after the reserved word) -/
-def bTkhd (trackId volume width height : Nat) : Box :=
-  leaf "tkhd" (u32be 0 ++ u32be 0 ++ u32be 0 ++ u32be trackId ++ u32be 0 ++ u64be 0 ++ u64be 0 ++
+/-- `build_tkhd_box_with_id` (note: 88-byte payload — duration, a stray 32-bit zero, then the
+    8 reserved bytes; the standard layout has no such word) -/
+def bTkhd (trackId volume width height durationMs : Nat) : Box :=
+  leaf "tkhd" (u32be 0 ++ u32be 0 ++ u32be 0 ++ u32be trackId ++ u32be 0 ++ u32be durationMs ++ u32be 0 ++ u64be 0 ++
     u16be 0 ++ u16be 0 ++ u16be volume ++ u16be 0 ++ matrixBytes ++
     u32be (width * 2^16) ++ u32be (height * 2^16))
 
@@ -364,13 +366,16 @@ def bAudioStbl (a : AudioTrack) (t : Tables) : Box :=
   node "stbl" [] [bStsd (bAudioEntry a), bStts t.durations,
     bStsc t.samplesPerChunk t.chunkOffsets.length, bStsz t.sizes, bStco t.chunkOffsets]
 
+/-- media ticks → movie timescale (ms), as `(media * 1000 / 90000) as u32` -/
+def toMs (media : Nat) : Nat := media * 1000 / 90000
+
 def bVideoTrak (width height : Nat) (t : Tables) (vc : VideoConfig) (lang : Option (List Nat)) : Box :=
-  node "trak" [] [bTkhd 1 0 width height,
+  node "trak" [] [bTkhd 1 0 width height (toMs t.totalDuration),
     node "mdia" [] [bMdhd 90000 t.totalDuration lang, bHdlr "vide" "VideoHandler",
       node "minf" [] [bVmhd, bDinf, bVideoStbl width height t vc]]]
 
 def bAudioTrak (a : AudioTrack) (t : Tables) (lang : Option (List Nat)) : Box :=
-  node "trak" [] [bTkhd 2 0x0100 0 0,
+  node "trak" [] [bTkhd 2 0x0100 0 0 (toMs t.totalDuration),
     node "mdia" [] [bMdhd 90000 t.totalDuration lang, bHdlr "soun" "SoundHandler",
       node "minf" [] [bSmhd, bDinf, bAudioStbl a t]]]
 
@@ -485,9 +490,9 @@ deriving Repr, DecidableEq
 /-- `build_moov_box` -/
 def bMoov (width height : Nat) (vt : Tables) (audio : Option (AudioTrack × Tables)) (vc : VideoConfig)
     (md : Option Metadata) : Box :=
-  let durMs := vt.totalDuration * 1000 / 90000
+  let durMs := max (toMs vt.totalDuration) (match audio with | some (_, at_) => toMs at_.totalDuration | none => 0)
   let lang := md.bind (·.language)
-  node "moov" [] ([bMvhd durMs, bVideoTrak width height vt vc lang] ++
+  node "moov" [] ([bMvhd durMs (if audio.isSome then 3 else 2), bVideoTrak width height vt vc lang] ++
     (match audio with | some (a, at_) => [bAudioTrak a at_ lang] | none => []) ++
     (match md.bind bUdta with | some u => [u] | none => []))
 
@@ -560,6 +565,8 @@ def finalizeFastStart (w : Writer) (width height : Nat) (md : Option Metadata) (
 def Writer.finalize (w : Writer) (width height : Nat) (md : Option Metadata) (fast : Bool) : Writer × FinOut :=
   if w.finalized then (w, ⟨[], .ioErr "mp4 writer already finalised"⟩) else
   let w' := { w with finalized := true }
+  if (durationsOf w.vsRev.reverse w.vLastDelta).sum > u32Max ∨ (durationsOf w.asRev.reverse w.aLastDelta).sum > u32Max then
+    (w', ⟨[], .ioErr "MP4 track duration exceeds u32::MAX media ticks"⟩) else
   if width > 65535 ∨ height > 65535 then (w', ⟨[], .ioErr "video width and height must fit in 16 bits"⟩) else
   let vc := w.vConfig.getD (.avc defaultAvc)
   (w', if fast then finalizeFastStart w width height md vc else finalizeStandard w width height md vc)
